@@ -19,6 +19,10 @@ const pebblePkg = "github.com/cockroachdb/pebble"
 type pEntry struct {
 	k []*Term
 	v Value // []Value (cells) or *Blob
+	// how many Sets the key has received since it was last absent, and the value
+	// the latest Set overwrote: what SingleDelete needs (it cancels ONE Set)
+	sets int
+	prev Value
 }
 
 type pOp struct {
@@ -28,6 +32,7 @@ type pOp struct {
 }
 
 type pDB struct {
+	ghosts   []pEntry // single-deleted keys whose older value reappears at the next flush
 	ents     []pEntry
 	closed   bool
 	dir      string
@@ -184,14 +189,18 @@ func applyOp(p *Path, ents []pEntry, op pOp) []pEntry {
 		i, found := p.pLocate(ents, op.k)
 		out := make([]pEntry, 0, len(ents)+1)
 		out = append(out, ents[:i]...)
-		out = append(out, pEntry{op.k, op.v})
+		ne := pEntry{k: op.k, v: op.v, sets: 1}
+		if found {
+			ne.sets, ne.prev = ents[i].sets+1, ents[i].v
+		}
+		out = append(out, ne)
 		if found {
 			out = append(out, ents[i+1:]...)
 		} else {
 			out = append(out, ents[i:]...)
 		}
 		return out
-	case 1:
+	case 1, 3: // a single delete hides the key like a delete until the next flush (see pDB.ghosts)
 		i, found := p.pLocate(ents, op.k)
 		if !found {
 			return ents
@@ -210,6 +219,27 @@ func applyOp(p *Path, ents []pEntry, op pOp) []pEntry {
 		out = append(out, ents[:i]...)
 		out = append(out, ents[j:]...)
 		return out
+	}
+}
+
+// resurrect: a flush lets the value under a single-deleted, more-than-once
+// written key reappear (unless a newer Set covers it).
+func (db *pDB) resurrect(p *Path) {
+	for _, g := range db.ghosts {
+		i, found := p.pLocate(db.ents, g.k)
+		if found {
+			continue
+		}
+		out := make([]pEntry, 0, len(db.ents)+1)
+		out = append(out, db.ents[:i]...)
+		out = append(out, g)
+		out = append(out, db.ents[i:]...)
+		db.ents = out
+		db.gen++
+	}
+	if len(db.ghosts) > 0 {
+		db.ghosts = nil
+		db.syncInode()
 	}
 }
 
@@ -423,6 +453,7 @@ func init() {
 		if db.closed {
 			p.pebblePanicClosed()
 		}
+		db.resurrect(p)
 		db.flushed = db.ents
 		p.fsPebbleFlushed(db)
 		return Iface{}
@@ -460,6 +491,7 @@ func init() {
 	reg(P+"Batch).Set", batchWrite(0))
 	reg(P+"Batch).Delete", batchWrite(1))
 	reg(P+"Batch).DeleteRange", batchWrite(2))
+	reg(P+"Batch).SingleDelete", batchWrite(3))
 	reg(P+"Batch).Apply", func(p *Path, _ *frame, a []Value) Value {
 		b := pData[*pBatch](p, a[0], "Batch.Apply")
 		src := pData[*pBatch](p, a[1], "Batch.Apply src")
@@ -509,12 +541,56 @@ func init() {
 		if b.committed {
 			p.goPanic(p.newError("pebble: batch already committing"))
 		}
-		b.db.ents = b.currentView(p)
+		hasSingle := false
+		for _, op := range b.ops {
+			if op.kind == 3 {
+				hasSingle = true
+			}
+		}
+		if !hasSingle {
+			b.db.ents = b.currentView(p)
+		} else {
+			// SingleDelete cancels only the newest Set of its key: if the key was
+			// written more than once since it was last absent, the value below comes
+			// back when the memtable is flushed
+			v := b.db.ents
+			for _, op := range b.ops {
+				if op.kind == 3 {
+					if i, found := p.pLocate(v, op.k); found && v[i].sets > 1 {
+						b.db.ghosts = append(b.db.ghosts, pEntry{k: v[i].k, v: v[i].prev, sets: v[i].sets - 1})
+					}
+				}
+				v = applyOp(p, v, op)
+			}
+			b.db.ents = v
+		}
+		if len(b.db.ghosts) > 0 {
+			// a regular delete covers everything below it, pending values included
+			for _, op := range b.ops {
+				if op.kind != 1 && op.kind != 2 {
+					continue
+				}
+				var keep []pEntry
+				for _, g := range b.db.ghosts {
+					var covered *Term
+					if op.kind == 1 {
+						covered = p.bytesEq(op.k, g.k)
+					} else {
+						covered = p.ctx.And(p.ctx.Not(p.bytesLess(g.k, op.k)), p.bytesLess(g.k, op.end))
+					}
+					if !p.branch(covered) {
+						keep = append(keep, g)
+					}
+				}
+				b.db.ghosts = keep
+			}
+		}
 		b.db.gen++
 		b.db.commits++
 		b.committed = true
 		b.db.syncInode()
 		if p.spontFlush && p.chooseFree("memtable-flush", 2) == 1 {
+			b.db.resurrect(p)
 			b.db.flushed = b.db.ents
 			p.fsPebbleFlushed(b.db)
 		}
